@@ -35,7 +35,7 @@ class Exec:
         from sims import term_llc as T
         from sims import term_sched as S
         self.st, self.calls, self.script = st, calls, list(script)
-        self.sched = s = S.Sched()
+        self.sched = s = self.make_sched()
         s.install()
         self.S = S
         llc = self.llc = T.make_llc()
@@ -70,6 +70,11 @@ class Exec:
         self.link = s.spawn("link", self.link_fn, atomic=True)
         self.resp = llc.sap[1].resp if llc.sap[1] is not None else None
         self.term_calls = None
+
+    @staticmethod
+    def make_sched():
+        from sims import term_sched as S
+        return S.Sched()
 
     def call_fn(self, sock, call):
         import nfc.llcp
